@@ -40,19 +40,20 @@
    real `DefaultEngine` objects by `vh-crypto` (TABLE pattern): the spec is enumerator and oracle. *)
 EXTENDS Integers, Sequences, FiniteSets, TLC, Json
 
-CONSTANTS Scheme,      \* which primitive (string, see above)
+CONSTANTS Schemes,     \* which primitives (set of strings, see above)
           MaxTamper,   \* maximal number of tamper steps
           HashModel,   \* "tuple" (the code) | "concat" (sensitivity self-test)
-          PLens        \* plaintext length classes (only used by encrypting schemes; else {0})
+          PLens        \* plaintext length classes (used by the schemes that encrypt caller data)
 
-VARIABLES phase,   \* "tamper" | "checked"
+VARIABLES scheme,  \* the primitive of this behaviour
+          phase,   \* "tamper" | "checked"
           plen,    \* plaintext length class
           pres,    \* presented context: component name -> sequence of symbolic bytes
           art,     \* artifact: region name -> sequence of symbolic bytes
           hist,    \* tamper steps so far
           accept   \* outcome of the check
 
-vars == <<phase, plen, pres, art, hist, accept>>
+vars == <<scheme, phase, plen, pres, art, hist, accept>>
 
 ----------------------------------------------------------------------------------
 (* scheme tables *)
@@ -97,9 +98,9 @@ MovesOf(s) ==
 
 SwapsOf(s) == IF s = "afcuni" THEN [ids |-> <<"seal_id", "open_id">>] ELSE [x \in {} |-> <<>>]
 
-Comps == CompsOf(Scheme)
-Regions == RegionsOf(Scheme)
-Moves == MovesOf(Scheme)
+Comps == CompsOf(scheme)
+Regions == RegionsOf(scheme)
+Moves == MovesOf(scheme)
 CompNames == {Comps[i].n : i \in 1..Len(Comps)}
 RegionNames == {Regions[i].n : i \in 1..Len(Regions)}
 CompIdx(n) == CHOOSE i \in 1..Len(Comps) : Comps[i].n = n
@@ -117,17 +118,17 @@ Flatten(t) == LET RECURSIVE F(_) F(i) == IF i = 0 THEN <<>> ELSE F(i - 1) \o t[i
 H(t) == IF HashModel = "tuple" THEN t ELSE <<Flatten(t)>>
 
 Term(p) ==
-  CASE Scheme = "cmdsig"      -> <<p.key, H(<<p.key, p.name, p.parent, p.data>>)>>
-    [] Scheme = "wrap"        -> <<p.engine, H(<<p.kind, p.id>>), p.kind>>
-    [] Scheme = "groupkey"    -> LET info == H(<<p.label, p.parent, p.author>>) IN <<p.key, info, info>>
-    [] Scheme = "sealedgk"    -> <<p.recipient, p.group>>
-    [] Scheme = "pskseed"     -> <<p.sender, p.recipient, p.group>>
-    [] Scheme = "topicmsg"    -> <<p.key, p.version, p.topic, H(<<p.version, p.topic, p.senc, p.ssign>>)>>
-    [] Scheme = "sealedtopic" -> <<p.sender, p.receiver, p.version, p.topic>>
-    [] Scheme = "afcuni"      -> <<p.author, p.peer, p.parent, p.seal_id, p.open_id, p.label>>
+  CASE scheme = "cmdsig"      -> <<p.key, H(<<p.key, p.name, p.parent, p.data>>)>>
+    [] scheme = "wrap"        -> <<p.engine, H(<<p.kind, p.id>>), p.kind>>
+    [] scheme = "groupkey"    -> LET info == H(<<p.label, p.parent, p.author>>) IN <<p.key, info, info>>
+    [] scheme = "sealedgk"    -> <<p.recipient, p.group>>
+    [] scheme = "pskseed"     -> <<p.sender, p.recipient, p.group>>
+    [] scheme = "topicmsg"    -> <<p.key, p.version, p.topic, H(<<p.version, p.topic, p.senc, p.ssign>>)>>
+    [] scheme = "sealedtopic" -> <<p.sender, p.receiver, p.version, p.topic>>
+    [] scheme = "afcuni"      -> <<p.author, p.peer, p.parent, p.seal_id, p.open_id, p.label>>
 
 \* afc/uni.rs refuses seal_id = open_id on both sides (Error::same_device_id)
-Refused(p) == Scheme = "afcuni" /\ p.seal_id = p.open_id
+Refused(p) == scheme = "afcuni" /\ p.seal_id = p.open_id
 
 Verify(p, a) == ~Refused(p) /\ Term(p) = Term(Orig) /\ a = OrigArt
 
@@ -160,7 +161,7 @@ MoveOk(p, ms, i) == IF i > Len(ms) THEN TRUE
 Ops ==
   {Op("replace", Comps[i].n, k) : i \in 1..Len(Comps), k \in 1..5} \cup
   {Op("move", m, 0) : m \in DOMAIN Moves} \cup
-  {Op("swap", w, 0) : w \in DOMAIN SwapsOf(Scheme)} \cup
+  {Op("swap", w, 0) : w \in DOMAIN SwapsOf(scheme)} \cup
   {Op("flip", Regions[i].n, k) : i \in 1..Len(Regions), k \in 1..3} \cup
   {Op(o, Regions[i].n, 0) : i \in 1..Len(Regions), o \in {"trunc", "ext"}}
 
@@ -175,15 +176,19 @@ Enabled(o) ==
 Apply(o) ==
   CASE o.op = "replace" -> /\ pres' = [pres EXCEPT ![o.a] = Fresh(o.a, o.b)] /\ UNCHANGED art
     [] o.op = "move" -> /\ pres' = MoveAll(pres, Moves[o.a], 1) /\ UNCHANGED art
-    [] o.op = "swap" -> LET x == SwapsOf(Scheme)[o.a][1]  y == SwapsOf(Scheme)[o.a][2]
+    [] o.op = "swap" -> LET x == SwapsOf(scheme)[o.a][1]  y == SwapsOf(scheme)[o.a][2]
                         IN /\ pres' = [pres EXCEPT ![x] = pres[y], ![y] = pres[x]] /\ UNCHANGED art
     [] o.op = "flip" -> /\ art' = [art EXCEPT ![o.a][o.b] = -@] /\ UNCHANGED pres
     [] o.op = "trunc" -> /\ art' = [art EXCEPT ![o.a] = TakeTail(@)] /\ UNCHANGED pres
     [] o.op = "ext" -> /\ art' = [art EXCEPT ![o.a] = Append(@, -9999)] /\ UNCHANGED pres
 
 ----------------------------------------------------------------------------------
-Init == /\ phase = "tamper"
-        /\ plen \in PLens
+\* plaintext lengths only matter for the schemes that encrypt caller data
+Encrypts(s) == s \in {"groupkey", "topicmsg"}
+
+Init == /\ scheme \in Schemes
+        /\ phase = "tamper"
+        /\ plen \in (IF Encrypts(scheme) THEN PLens ELSE {0})
         /\ pres = Orig
         /\ art = OrigArt
         /\ hist = <<>>
@@ -195,14 +200,14 @@ Tamper(o) ==
   /\ Enabled(o)
   /\ Apply(o)
   /\ hist' = Append(hist, o)
-  /\ UNCHANGED <<phase, plen, accept>>
+  /\ UNCHANGED <<scheme, phase, plen, accept>>
 
 (* verify_cmd / Engine::unwrap / open / from_peer_encap + open of the author's message *)
 Check ==
   /\ phase = "tamper"
   /\ accept' = Verify(pres, art)
   /\ phase' = "checked"
-  /\ UNCHANGED <<plen, pres, art, hist>>
+  /\ UNCHANGED <<scheme, plen, pres, art, hist>>
 
 Next == (\E o \in Ops : Tamper(o)) \/ Check
 
@@ -218,12 +223,12 @@ AcceptIffUnchanged == phase = "checked" => (accept <=> (Unchanged /\ ~Refused(pr
 (* C34: signer and verifier derive the same command id exactly when verification succeeds on
    the untouched signature; any other presentation derives a different id *)
 IdAgreement ==
-  (Scheme = "cmdsig" /\ phase = "checked") =>
+  (scheme = "cmdsig" /\ phase = "checked") =>
      ((IdOf(pres, art) = IdOf(Orig, OrigArt)) <=> (Term(pres) = Term(Orig) /\ art["sig"] = OrigArt["sig"]))
 
 (* a tamper sequence that really changed something exists at every depth (vacuity) *)
 ----------------------------------------------------------------------------------
-Hist == [scheme |-> Scheme, plen |-> plen, ops |-> hist, accept |-> accept,
+Hist == [scheme |-> scheme, plen |-> plen, ops |-> hist, accept |-> accept,
          unchanged |-> Unchanged]
 Emit == phase = "checked" => PrintT("REPLAY " \o ToJson(Hist))
 =================================================================================
